@@ -44,6 +44,24 @@ fn table_checks(rep: &Report) {
             }
         }
     }
+    // the triaxial type reads the same table: every name instantiates there too, with the same a and f (its derived
+    // parameters come from the shared EllipsoidBase code, so f itself is compared, not 1/f)
+    for e in &table {
+        let name = e[0];
+        rep.eval(1);
+        let (Ok(Ok(bi)), tri) = (catch(|| Ellipsoid::named(name)), catch(|| TriaxialEllipsoid::named(name))) else { continue };
+        match tri {
+            Ok(Ok(t)) => {
+                if t.semimajor_axis().to_bits() != bi.semimajor_axis().to_bits() || t.flattening().to_bits() != bi.flattening().to_bits() || !(t.semiminor_axis() - bi.semiminor_axis()).abs().le(&1e-9) {
+                    rep.violation(
+                        "built-in ellipsoid differs between the biaxial and the triaxial type",
+                        json!({"name": name, "biaxial": {"a": bi.semimajor_axis(), "f": bi.flattening(), "b": bi.semiminor_axis()}, "triaxial": {"a": t.semimajor_axis(), "f": format!("{}", t.flattening()), "b": format!("{}", t.semiminor_axis())}}),
+                    );
+                }
+            }
+            other => rep.violation("built-in ellipsoid cannot be instantiated as a triaxial ellipsoid", json!({"name": name, "result": format!("{:?}", other.map(|r| r.is_ok()))})),
+        }
+    }
     for (name, _, _) in REF_ELLIPSOIDS.iter() {
         if !table.iter().any(|e| e[0] == *name) {
             rep.add_to("reference_names_absent_from_library_table", json!(name));
